@@ -61,12 +61,12 @@ def handleIndex (script outcome dump ranks obs enum : String) : Verdict :=
   | some t, some sc =>
     let tips := t.tipNames
     let uniq : Bool := decide tips.Nodup
-    let edited := sc.any fun s => s != "reinit"
+    let edited := sc.any fun s => s != "reinit" && s != "internal"
     let stale := sc.head? == some "reinit" && edited
     let inner := t.splits.any fun s => 2 ≤ specTopoDepth tips s.below
-    let tags := treeTags t ++ tagIf uniq "uniq" ++ tagIf edited "edited" ++ tagIf stale "stale-index-before-edit" ++
+    let tags := treeTags t ++ tagIf uniq "uniq" ++ tagIf edited "edited" ++ tagIf stale "stale-index-before-edit" ++ tagIf (sc.getLast? == some "internal") "ReinitInternalIndexes" ++
       tagIf (uniq && inner) "nontrivial" ++ tagIf (tips.length ≥ 3) "ge3tips"
-    let model := reinit fnv1a t
+    let model := reinitLit2 fnv1a t
     if !uniq || tips.length == 0 then
       -- outside the property (names not unique / no tip): only the tie is looked at
       match model, outcome with
@@ -102,7 +102,7 @@ def handleIndex (script outcome dump ranks obs enum : String) : Verdict :=
 
 def getD2 (m : List (List Bool)) (i j : Nat) : Bool := (m.getD i []).getD j false
 
-def handlePairs (d1 d2 outcome hc1 hc2 heq sb fe : String) : Verdict :=
+def handlePairs (d1 d2 outcome hc1 hc2 heq sb fe ce : String) : Verdict :=
   match T.undump d1, T.undump d2 with
   | some t1, some t2 =>
     let tips1 := t1.tipNames
@@ -118,6 +118,18 @@ def handlePairs (d1 d2 outcome hc1 hc2 heq sb fe : String) : Verdict :=
     let twoPres := ((b1.zip v1).any fun (a, va) => (b2.zip v2).any fun (b, vb) => sameSplitV va vb && a != b) && rel.any (·.any (!·))
     let tags := treeTags t1 ++ tagIf uniq "uniq" ++ tagIf sameTaxa "sametaxa" ++
       tagIf (uniq && sameTaxa && twoPres) "nontrivial" ++ tagIf (t1.rooted != t2.rooted) "rooted-vs-unrooted"
+    let showCE (o : Option (Int × Int)) : String := match o with
+      | none => "err;" | some (a, b) => toString a ++ "," ++ toString b ++ ";"
+    if uniq && !sameTaxa && tips1.length != 0 && outcome == "ok" then
+      -- other taxa: `CommonEdges` must refuse; the rest is meaningless
+      let mce := match reinitLit2 fnv1a t1, reinitLit2 fnv1a t2 with
+        | .ok (_, m1), .ok (_, m2) =>
+          String.join ([false, true].map fun te => showCE (commonEdges tips1 tips2 (m1.zip (t1.splits.map (·.tip))) (m2.zip (t2.splits.map (·.tip))) te))
+        | _, _ => "?"
+      if ce != "err;err;" then ⟨.oracle, "other-taxa" :: tags, "CommonEdges accepts trees on different taxa: " ++ ce⟩
+      else if mce != ce then ⟨.tie, "other-taxa" :: tags, "model CommonEdges " ++ mce⟩
+      else ⟨.pass, "other-taxa" :: "refused" :: tags, ""⟩
+    else
     if !uniq || !sameTaxa || tips1.length == 0 then ⟨.pass, "skip-outside" :: tags, ""⟩
     else if outcome != "ok" then ⟨.oracle, tags, "indexing or comparing failed on trees with unique tips: " ++ outcome⟩
     else
@@ -140,8 +152,13 @@ def handlePairs (d1 d2 outcome hc1 hc2 heq sb fe : String) : Verdict :=
         let feSpec := String.ofList ((t1.splits.zip v1).map fun (s, va) =>
           if (t2.splits.zip v2).any (fun (s2, vb) => s.tip == s2.tip && sameSplitV va vb) then '1' else '0')
         if fe != feSpec then ⟨.oracle, tags, "FindEdge differs from 'same split on a branch of the same kind': " ++ fe ++ " expected " ++ feSpec⟩ else
-        match reinit fnv1a t1, reinit fnv1a t2 with
+        let ceSpec := String.join ([false, true].map fun te => showCE (some (specCommon tips1 te t1.splits t2.splits)))
+        if ce != ceSpec then ⟨.oracle, tags, "CommonEdges differs from the count of shared splits: " ++ ce ++ " expected " ++ ceSpec⟩ else
+        match reinitLit2 fnv1a t1, reinitLit2 fnv1a t2 with
         | .ok (_, m1), .ok (_, m2) =>
+          let ceModel := String.join ([false, true].map fun te =>
+            showCE (commonEdges tips1 tips2 (m1.zip (t1.splits.map (·.tip))) (m2.zip (t2.splits.map (·.tip))) te))
+          if ceModel != ce then ⟨.tie, tags, "model CommonEdges " ++ ceModel⟩ else
           let feModel := String.ofList ((m1.zip (t1.splits.map (·.tip))).map fun (e, tp) =>
             match findEdge e tp (m2.zip (t2.splits.map (·.tip))) with
             | none => 'e' | some true => '1' | some false => '0')
@@ -169,10 +186,12 @@ def hashOf (mode : Nat) (k : K) : UInt64 :=
 
 def eqvK (a b : K) : Bool := a.1 == b.1
 
-/-- Go: `float64(total) >= float64(capacity)*loadfactor`; the load factor travels as the exact
-    rational of the float; the capacities used are not multiples of 5, so the float product is
-    never within rounding of an integer and the exact comparison decides the same. -/
-def policyOf (lf : Rat) (total cap : Nat) : Bool := (total : Rat) ≥ (cap : Rat) * lf
+/-- the rehash decision with an exact (unrounded) product — only used for the evidence tag
+    `float-rounding-decides` (cases where the rounding of `float64(capacity)*loadfactor` matters) -/
+def policyRat (lf : Rat) (total cap : Nat) : Bool := (total : Rat) ≥ (cap : Rat) * lf
+
+/-- the policy the driver runs: the code's own float computation (`goPolicy`) -/
+def policyOf (lf : Rat) : Nat → Nat → Bool := goPolicy (floatOfRat lf)
 
 def parseHMOp (s : String) : Option (HMOp K Int) :=
   match s.toList with
@@ -189,6 +208,7 @@ def parseHMOp (s : String) : Option (HMOp K Int) :=
       | _, _ => none
     | _ => none
   | ['k'] => some .kvs
+  | ['y'] => some .keys
   | _ => none
 
 def parseKV (s : String) : Option (K × Int) :=
@@ -209,6 +229,12 @@ def parseHMOut (s : String) : Option (HMOut K Int) :=
     | some l => some (.kvs l)
     | none => some .panic
   | 'P' :: _ => some .panic
+  | 'Y' :: r =>
+    match (splitTerm "/" (String.ofList r)).mapM (fun s => match s.splitOn "." with
+        | [a, b] => (match a.toNat?, b.toNat? with | some a, some b => some (a, b) | _, _ => none)
+        | _ => none) with
+    | some l => some (.keys l)
+    | none => some .panic
   | _ => none
 
 def simAll {κ ν : Type} [DecidableEq κ] [DecidableEq ν] (a b : List (HMOut κ ν)) : Bool :=
@@ -240,7 +266,9 @@ def handleHM (caps lfs modes opss repliess : String) : Verdict :=
       -- fidelity figure only: the model's KeyValues come in the very order of the implementation's
       let sameOrder := mouts.length == outs.length && (List.zipWith (fun (a b : HMOut K Int) =>
         match a, b with | .kvs x, .kvs y => x == y | _, _ => true) mouts outs).all id
-      let tags := tags ++ tagIf sameOrder "kv-order-exact"
+      let finR := finalHM (hashOf mode) eqvK (policyRat lf) puts (HM.new cap)
+      let tags := tags ++ tagIf sameOrder "kv-order-exact" ++ tagIf (!sameOrder) "kv-order-differs" ++
+        tagIf (finR.cap != fin.cap) "float-rounding-decides"
       if !(simAll spec outs) then ⟨.oracle, tags, "map replies differ from a plain map"⟩
       else if !(simAll mouts outs) then ⟨.tie, tags, "model map replies differ"⟩
       else ⟨.pass, tags, ""⟩
@@ -277,6 +305,7 @@ def parseEIOp (lens : Nat × Nat → Rat) (s : String) : Option (EIOp (Nat × Na
       | some a, some b => some (.edges a b)
       | _, _ => none
     | _ => none
+  | ['u'] => some .unindexed
   | _ => none
 
 def parseEIOut (s : String) : Option EIOut :=
@@ -290,6 +319,7 @@ def parseEIOut (s : String) : Option EIOut :=
       | _, _ => none
     | _ => none
   | 'E' :: r => (String.ofList r).toNat?.map .nedges
+  | ['e', 'r', 'r'] => some .err
   | 'P' :: _ => some .panic
   | _ => none
 
@@ -298,6 +328,7 @@ def mapKey {κ κ' : Type} (f : κ → κ') : EIOp κ → EIOp κ'
   | .putv k c l => .putv (f k) c l
   | .value k => .value (f k)
   | .edges a b => .edges a b
+  | .unindexed => .unindexed
 
 def handleEI (dumps caps lfs opss outcome repliess : String) : Verdict :=
   match (splitTerm "|" dumps).mapM T.undump, caps.toNat?, parseRat? lfs, parseStrList opss, parseStrList repliess with
@@ -319,7 +350,7 @@ def handleEI (dumps caps lfs opss outcome repliess : String) : Verdict :=
       let eqvS (a b : Nat × Nat) : Bool := sameSplit tips (below a) (below b)
       let spec := Assoc.runEI eqvS ops []
       -- model: keys are the model's own index records
-      let idxs := ts.map fun t => match reinit fnv1a t with | .ok (_, l) => l | .err _ => []
+      let idxs := ts.map fun t => match reinitLit2 fnv1a t with | .ok (_, l) => l | .err _ => []
       let dflt : EdgeIdx := ⟨[], 0, 0, 0, 0⟩
       let keyOf (k : Nat × Nat) : EdgeIdx := ((idxs.getD k.1 [])[k.2]?).getD dflt
       let mops := ops.map (mapKey keyOf)
@@ -390,6 +421,7 @@ def handleQuartet (qs q2s caps lfs hs1 hs2 c11 c12 e11 e12 repliess : String) : 
           | .val none => some "n"
           | .val (some v) => some ("v" ++ toString v)
           | .kvs l => some ("K" ++ toString l.length)
+          | .keys l => some ("Y" ++ toString l.length)
           | .panic => some "P"
         if p1.map (·.hashCode) != h1 || p2.map (·.hashCode) != h2 then ⟨.tie, tags, "model hash codes differ"⟩
         else if c11 != cmpStr Quartet.compare p1 p1 || c12 != cmpStr Quartet.compare p1 p2 then ⟨.tie, tags, "model Compare differs"⟩
@@ -398,12 +430,73 @@ def handleQuartet (qs q2s caps lfs hs1 hs2 c11 c12 e11 e12 repliess : String) : 
         else ⟨.pass, tags, ""⟩
   | _, _, _, _, _, _, _ => bad "C04.quartet fields"
 
+/- ## C04.quartets -/
+
+def parseQ (s : String) : Option Quartet :=
+  match (s.splitOn ".").mapM (·.toNat?) with
+  | some [a, b, c, d] => some ⟨a, b, c, d⟩
+  | _ => none
+
+def parseQList (s : String) : Option (List Quartet) := (splitTerm "," s).mapM parseQ
+
+def parseQKV (s : String) : Option (Quartet × Quartet) :=
+  match s.splitOn ":" with
+  | [k, v] => match parseQ k, parseQ v with
+    | some k, some v => some (k, v)
+    | _, _ => none
+  | _ => none
+
+def handleQuartets (dump sp wi outcome ql ix : String) : Verdict :=
+  match T.undump dump with
+  | none => bad "C04.quartets dump"
+  | some t =>
+    let tips := t.tipNames
+    let uniq : Bool := decide tips.Nodup
+    let specific := sp == "1"
+    let roottip := t.kids.length == 1
+    let sorted := sortNames tips
+    let rank := fun x => sorted.idxOf x
+    let tags0 := treeTags t ++ tagIf uniq "uniq" ++ tagIf specific "specific" ++ tagIf (!specific) "plain" ++ tagIf (wi == "1") "indexed"
+    if !uniq || tips.length == 0 then
+      (if outcome == "err" then ⟨.pass, "refused" :: tags0, ""⟩ else ⟨.tie, tags0, "duplicate names not refused"⟩)
+    else if outcome != "ok" then ⟨.oracle, tags0, "Quartets failed on a tree with unique tips: " ++ outcome⟩
+    else
+    match parseQList ql with
+    | none => bad "C04.quartets list"
+    | some qs =>
+      let model := quartets rank specific t
+      let tags := tags0 ++ tagIf (qs.length > 0) "nontrivial" ++ tagIf (model == qs) "order-exact" ++ tagIf (qs.length != (qs.map Quartet.canon).eraseDups.length) "repeated-quartet"
+      -- oracle: the quartets of the tree, as a multiset (a root that is a tip: only the tie — the code
+      -- enumerates nothing there)
+      if !roottip && sortQs qs != sortQs (specQuartets rank specific t) then
+        ⟨.oracle, tags, "Quartets does not deliver the quartets of the tree (" ++ toString qs.length ++ " delivered, " ++
+          toString (specQuartets rank specific t).length ++ " expected)"⟩
+      else
+      -- IndexQuartets: a plain map over the quartets delivered
+      let ixVerdict : Option Verdict :=
+        if ix == "-" then none else
+        match (splitTerm "," ix).mapM parseQKV with
+        | none => some ⟨.oracle, tags, "IndexQuartets: nil entry"⟩
+        | some kvs =>
+          if !(kvs.isPerm (specIndexQuartets qs)) then some ⟨.oracle, tags, "IndexQuartets differs from a plain map keyed by the four taxa"⟩
+          else
+            -- the model map (any capacity gives the same entries, theorem hm_refines; 128 here)
+            match (indexQuartets (goPolicy 0.75) 128 model).getLast? with
+            | some (.kvs l) => if l.isPerm kvs then none else some ⟨.tie, tags, "model IndexQuartets differs"⟩
+            | _ => some ⟨.tie, tags, "model IndexQuartets panics"⟩
+      match ixVerdict with
+      | some v => v
+      | none =>
+        if sortQs model != sortQs qs then ⟨.tie, tags, "model quartets differ (" ++ toString model.length ++ ")"⟩
+        else ⟨.pass, tags, ""⟩
+
 def handle (op : String) (f : List String) : Verdict :=
   match op, f with
   | "index", [_, script, outcome, dump, ranks, obs, enum] => handleIndex script outcome dump ranks obs enum
-  | "pairs", [d1, d2, outcome, hc1, hc2, heq, sb, fe] => handlePairs d1 d2 outcome hc1 hc2 heq sb fe
+  | "pairs", [d1, d2, outcome, hc1, hc2, heq, sb, fe, ce] => handlePairs d1 d2 outcome hc1 hc2 heq sb fe ce
   | "hm", [cap, lf, mode, ops, replies] => handleHM cap lf mode ops replies
   | "ei", [dumps, cap, lf, ops, outcome, replies] => handleEI dumps cap lf ops outcome replies
+  | "quartets", [dump, sp, wi, outcome, ql, ix] => handleQuartets dump sp wi outcome ql ix
   | "quartet", [q, q2, cap, lf, h1, h2, c11, c12, e11, e12, replies] => handleQuartet q q2 cap lf h1 h2 c11 c12 e11 e12 replies
   | _, _ => bad ("C04: unknown op or field count: " ++ op)
 
